@@ -10,6 +10,7 @@ import SF.Gen.Adapters
 import SF.Gen.ErrFlow
 import SF.Gen.Globals
 import SF.Gen.Alloc
+import SF.Gen.Singletons
 import SF.Gen.UnsafeSites
 import SF.Gen.RefMethods
 import SF.Event
@@ -140,5 +141,28 @@ theorem unsafeSitesKnown :
       (f.2.1 == "bytes2Str" && f.2.2 == "call:OnString" &&
         (f.1 == "json/parse.go:stepString" || f.1 == "json/visitor.go:OnStringRef"))) = true := by
   decide
+
+/-- C19 (singletons): the only writes to fields of struct types that have a package-level
+instance are constructor-style initialisations of fresh values (`makeFieldUnfolder`,
+`fieldUnfolders`, `liftGoUnfolder`, `parseTags`, `newTypeFoldRegistry`) and the methods of
+`typeFoldRegistry`, whose package-level instance `_foldRegistry` is never handed to an iterator
+(each iterator owns its registry).  In particular none of the stateless singleton unfolder
+states (`unfolderIgnoreArr`, `unfolderReflMapStart`, …) has a field that is written.  SSA
+facts, regenerated. -/
+theorem singletonWritesKnown :
+    SF.Gen.Singletons.facts = [
+      "gotype.fieldUnfolder.initState:store-in:makeFieldUnfolder",
+      "gotype.fieldUnfolder.offset:store-in:fieldUnfolders",
+      "gotype.fieldUnfolder.offset:store-in:makeFieldUnfolder",
+      "gotype.liftedReflUnfolder.unfolder:store-in:liftGoUnfolder",
+      "gotype.tagOptions.omit:store-in:parseTags",
+      "gotype.tagOptions.omitEmpty:store-in:parseTags",
+      "gotype.tagOptions.squash:store-in:parseTags",
+      "gotype.typeFoldRegistry.depth:store-in:begin",
+      "gotype.typeFoldRegistry.depth:store-in:end",
+      "gotype.typeFoldRegistry.m:mapupdate-in:put",
+      "gotype.typeFoldRegistry.m:store-in:newTypeFoldRegistry",
+      "gotype.typeFoldRegistry.pending:store-in:end",
+      "gotype.typeFoldRegistry.pending:store-in:put"] := by decide
 
 end SF.GenCheck
